@@ -5,8 +5,8 @@ Go code modelled (quartz/scheduler.go), everything marked (mtx) runs with `sched
 
 * `Start(ctx)` (mtx): `if started && runCtx.Err() != nil { stop() }` (completes a stop that is pending because the
   run's context was cancelled and the watcher has not reacted yet); `if started { return }`;
-  `ctx, cancel = WithCancel(ctx); runCtx = ctx; run++`; `wg.Add(1); go watcher(run)`; `wg.Add(1); go loop(ctx)`;
-  `startWorkers(ctx)` (`wg.Add(1); go worker` × n); `started = true`.
+  `ctx, cancel = WithCancel(ctx); runCtx = ctx; run++`; `wg.Add(1); go watcher(run)`; `dispatch := make(chan …)` (one
+  hand-off channel per run, see `Sched/Pool.lean`); `wg.Add(1); go loop(ctx, dispatch)`; `startWorkers(ctx, dispatch)` (`wg.Add(1); go worker` × n); `started = true`.
 * watcher of generation g: `defer wg.Done(); <-ctx.Done(); sched.stopRun(g)`.
 * `Stop()` (mtx) = `stop()`; `stopRun(g)` (mtx) = `if sched.run == g { stop() }`;
   `stop()` = `if !started { return }; sched.cancel(); started = false`.
